@@ -17,12 +17,18 @@ PROP = dict(
                "Modelled not verified: what happened to each message on its way to the subscriber (queued and written / "
                "dropped on a full pending-writes queue / written from the in-flight store) is read back from the wire, "
                "the OnPublishDropped hook and the snapshot and given to the model as the event kind; the message's "
-               "topic travels in its payload.  Not exercised: two publishers racing on one subscriber's alias table "
-               "(schedule-dependent: the table is updated outside the queue's order), packets refused for the "
-               "client's Maximum Packet Size after their alias was recorded (same finding, see C34).",
-    engines=[dict(hx="alias")],
-    theorems=["C24_out_modulo_findings", "C24_out_alias_bounded", "C24_out_refuted", "C24_in"],
-    model_files="coq/Session/Alias.v",
+               "topic travels in its payload.  Concurrent publishers: interleaving model (AliasSched.v) whose atomic steps are Set "
+               "(lookup + allocation under the table's lock) and the queue push; theorems over ALL schedules; the "
+               "granularity is tied to the code by forced schedules at the verifPoints alias.afterCursor (inside Set's "
+               "critical section) and publish.afterAlias (between Set and the queue): a second allocator is never seen "
+               "inside while one is parked there, and the overtaking finding is reproduced on the real broker.  Not "
+               "exercised: packets refused for the client's Maximum Packet Size after their alias was recorded (same "
+               "finding as the queue-full drop, see C34).",
+    engines=[dict(hx="alias"), dict(hx="aliassched")],
+    theorems=["C24_out_modulo_findings", "C24_out_alias_bounded", "C24_out_refuted", "C24_in",
+              "C24_sched_table_injective", "C24_sched_modulo_findings", "C24_sched_refuted_overtaken",
+              "C24_split_set_not_injective"],
+    model_files="coq/Session/Alias.v coq/Session/AliasSched.v",
     rule="outbound: 150 (thorough 4000) histories of 30 (50) steps: one v5 subscriber with Topic Alias Maximum "
          "{0,1,2,3,10} x Receive Maximum {0,1,2} (deferral), subscriptions q0/# (QoS 0) and q1/# (QoS 1), one "
          "publisher sending single publishes and bursts of 3-7 concatenated PUBLISH packets over 7 topics, pending-"
@@ -36,7 +42,12 @@ PROP = dict(
          "re-uses of the earliest topics every 997 calls and around call 65536 (131072); every call near the boundaries "
          "1..max+2, 65530..65545, every re-use and every call that returned an alias is replayed by the model and judged "
          "by the receiver check, the rest as runs answered (0,false); InboundTopicAliases.Set with 1200 random calls "
-         "(ids 1..max+1 and 65535, topics incl. '')",
+         "(ids 1..max+1 and 65535, topics incl. '').  Forced schedules (engine aliassched, 42 quick / 236 thorough): "
+         "Topic Alias Maximum 1/2/8 (random 1..8), 0-2 aliases bound beforehand; (a) publisher 0 parked inside Set, "
+         "1-2 further publishers deliver first messages on other new topics in a chain (must not get inside; "
+         "overlap = correspondence broken), then every topic published again by the same and by another publisher; "
+         "(b) publisher 0 parked between Set and the queue, publisher 1 publishes the same / another topic and is "
+         "let through first",
     modelled="topics.go OutboundTopicAliases.Set, InboundTopicAliases.Set; server.go publishToClient (alias block and "
              "its position relative to the in-flight store and the queue), processPublish (alias resolution), "
              "packets.PublishValidate (alias rules); clients.go ResendInflightMessages / processPacket's deferred send "
